@@ -330,7 +330,7 @@ def apply_step(sched, step):
             tr.apply([nodes[t] for t in targets])
     except TransformationError as e:
         return "refused", str(e.value)[:200]
-    except (AttributeError, KeyError, InternalError) as e:
+    except Exception as e:   # noqa: broad on purpose, see comment
         # PSyclone crashed instead of raising TransformationError (observed: AttributeError while formatting the
         # message of a refusal in RegionTrans.validate).  Counted as a refusal; the schedule comparison that
         # follows detects any partial modification.
